@@ -2,8 +2,10 @@
    ONLY theorem statements closed by `exact` (+ Examples by vm_compute).
    Specs (coq/C20/Spec.v): `wf` (what the op verifier guarantees + the explicit extra hypotheses),
    `simultaneous`, `frame`, `edge`/`on_cycle`, `fail_cause`; register machine `exec` (Model.v).
-   `lower unchanged` is the faithful model of the pinned tree, `lower repaired` the model of the
-   code with build/proposed_fixes/C20-1.diff and C20-2.diff applied. *)
+   `lower unchanged` is the faithful model of the pinned tree, `lower repaired` the model of the code with
+   C20-1 + C20-2 applied (the tree as it is now), `lower repaired_all` the model of the code with
+   build/proposed_fixes/C20-3.diff (moves into zero), C20-4.diff (counter keyed by register) and C20-5.diff
+   (width per move) applied on top. *)
 From Coq Require Import ZArith List.
 From XV Require Import C20.Model C20.Spec C20.Proofs.
 Import ListNotations.
@@ -44,6 +46,48 @@ Theorem C20_success : forall ms free, wf ms free -> ~ fail_cause ms free ->
   exists is vs, lower repaired ms free = Ok (is, vs).
 Proof. exact lower_repaired_success. Qed.
 Print Assumptions C20_success.
+
+(* ---- all repairs (C20-1 .. C20-5): the same statements under the weaker hypotheses `wf_all` =
+   `wf` without wf_ssa and wf_width: several SSA values may live in one register and every operand has
+   its own width.  PARTIAL with respect to `zero`: `wf_all` still demands distinct destinations and no
+   move overwriting zero (wa_dsts, wa_zero); the repaired code also accepts `zero` as a repeated
+   destination -- that part is covered by the exhaustive zero-register sweep and the Examples below. ---- *)
+Theorem C20_all_simultaneous : forall ms free is vs,
+  wf_all ms free -> lower repaired_all ms free = Ok (is, vs) -> simultaneous ms is.
+Proof. exact lower_all_simultaneous. Qed.
+Print Assumptions C20_all_simultaneous.
+
+Theorem C20_all_frame : forall ms free is vs,
+  wf_all ms free -> lower repaired_all ms free = Ok (is, vs) -> frame ms free is.
+Proof. exact lower_all_frame. Qed.
+Print Assumptions C20_all_frame.
+
+Theorem C20_all_failure_reported : forall ms free, wf_all ms free ->
+  match lower repaired_all ms free with
+  | Ok _ => True
+  | Raise e => e = EPassFailed /\ fail_cause ms free
+  | OutOfFuel => False
+  end.
+Proof. exact lower_all_failure. Qed.
+Print Assumptions C20_all_failure_reported.
+
+Theorem C20_all_fails_when_impossible : forall ms free, wf_all ms free ->
+  (exists m, In m ms /\ (is_alloc (m_src m) = false \/ is_alloc (m_dst m) = false))
+  \/ (exists d, on_cycle ms d /\ is_float d = true /\ forall f, In f free -> is_float f = false) ->
+  lower repaired_all ms free = Raise EPassFailed.
+Proof. exact lower_all_fails_when_impossible. Qed.
+Print Assumptions C20_all_fails_when_impossible.
+
+Theorem C20_all_success : forall ms free, wf_all ms free -> ~ fail_cause ms free ->
+  exists is vs, lower repaired_all ms free = Ok (is, vs).
+Proof. exact lower_all_success. Qed.
+Print Assumptions C20_all_success.
+
+(* `wf` implies `wf_all`; `wf_all` is strictly weaker (the kf-5 witness satisfies it but not `wf`) *)
+Theorem C20_wf_all_weaker : (forall ms free, wf ms free -> wf_all ms free)
+  /\ (wf_all ms_shared [] /\ ~ wf ms_shared []).
+Proof. exact (conj wf_wf_all wf_all_shared). Qed.
+Print Assumptions C20_wf_all_weaker.
 
 (* ---- the pinned tree: refutations of the full statements ---- *)
 Theorem C20_frame_refuted : exists ms free is vs,
@@ -121,3 +165,18 @@ Proof. exact repaired_root. Qed.
 Example C20_repaired_rotation : exists is vs, lower repaired ms_rot [] = Ok (is, vs)
   /\ map (get (exec is rho0)) [s1; s2; s3] = map (get rho0) [s2; s3; s1].
 Proof. exact repaired_rot. Qed.
+
+(* all repairs on the witnesses of kf-5, kf-6, kf-3, kf-4 *)
+Example C20_all_shared_register : exists is vs, lower repaired_all ms_shared [] = Ok (is, vs)
+  /\ map (get (exec is rho0)) [s1; s2; s3] = map (get rho0) [s2; s1; s1].
+Proof. exact all_shared. Qed.
+Example C20_all_mixed_width : exists is vs, lower repaired_all [mkM 0 fs1 fs2 64; mkM 0 fs1 fs1 32] [] = Ok (is, vs)
+  /\ get (exec is (fun _ => 5)) fs2 = 5.
+Proof. exact all_mixed_width. Qed.
+Example C20_all_duplicate_zero : exists is vs,
+  lower repaired_all [mkM 0 ZERO s1 64; mkM 0 ZERO s2 64; mkM 1 s1 ZERO 32; mkM 2 s2 ZERO 64] [] = Ok (is, vs)
+  /\ map (get (exec is rho0)) [s1; s2; ZERO; s3] = [0; 0; 0; get rho0 s3].
+Proof. exact all_duplicate_zero. Qed.
+Example C20_all_zero_swap : exists is vs, lower repaired_all [mkM 0 ZERO s2 64; mkM 1 s2 ZERO 64] [] = Ok (is, vs)
+  /\ get (exec is rho0) s2 = 0.
+Proof. exact all_zero_swap. Qed.
